@@ -94,6 +94,9 @@ impl StreamHandle {
     pub fn sink_len(&self) -> usize {
         self.state.borrow().sink.len()
     }
+    pub fn sink_byte(&self, i: usize) -> u8 {
+        self.state.borrow().sink[i]
+    }
     pub fn consumed(&self) -> usize {
         self.state.borrow().pos
     }
